@@ -74,7 +74,7 @@ CLAIMED["C17"] = dict(
    design="7/C17")
 CLAIMED["C18"] = dict(
    technique="exhaustive sweep of the completeness predicate over all strings up to length 7 (8) through a hook, and exhaustive enumeration of input-line sequences fed to the built REPL binary, against a reference REPL",
-   text="(1) The REPL's completeness test is compared with the reference predicate on every string up to length 7 (8) over a 10-character alphabet (parens, string/bar/char/comment introducers, newline). (2) Every sequence of up to 3 (4) input lines from a 31-fragment menu (incl. closing lines with trailing text and submissions ending in a definition) and every two-line split of seven forms at every token gap is piped into the built binary; stdout and stderr must equal the reference REPL's transcript, which cuts submissions with the reference predicate and evaluates them in sequence on one interpreter through the library interface.",
+   text="(1) The REPL's completeness test is compared with the reference predicate on every string up to length 7 (8) over a 10-character alphabet (parens, string/bar/char/comment introducers, newline). (2) Every sequence of up to 3 (4) input lines from a 31-fragment menu (incl. closing lines with trailing text and submissions ending in a definition) and every two-line split of twelve forms at every token gap is piped into the built binary; stdout and stderr must equal the reference REPL's transcript, which cuts submissions with the reference predicate and evaluates them in sequence on one interpreter through the library interface.",
    note="hook H1 (cfg ruschm_verif) exposes the private completeness test; terminal mode of rustyline is not driven",
    design="7/C18")
 CLAIMED["C15"] = dict(
